@@ -480,7 +480,7 @@ func exec(a []string) string {
 }
 
 func gen(r *lib.Rand, tier string, emit func(string)) {
-	nCorpus, nBuilt, nRandom := 220, 300, 80
+	nCorpus, nBuilt, nRandom := 180, 220, 60
 	if tier == "thorough" {
 		nCorpus, nBuilt, nRandom = -1, 12000, 3000
 	}
